@@ -49,6 +49,13 @@ Definition u32_of_z (z : Z) : N := Z.to_N (z mod two32).          (* uint32(x)  
 Definition i32_of_u32 (n : N) : Z :=                              (* int32(uint32) *)
   let m := Z.of_N n mod two32 in if m <? two31 then m else m - two32.
 
+(* the first n elements, n a binary number (io.LimitReader of n bytes) *)
+Fixpoint take (n : Z) (l : bytes) : bytes :=
+  match l with
+  | [] => []
+  | x :: r => if n <=? 0 then [] else x :: take (n - 1) r
+  end.
+
 (* b[lo:hi] when the bounds are in range *)
 Definition slice (lo hi : Z) (b : bytes) : bytes :=
   firstn (Z.to_nat (hi - lo)) (skipn (Z.to_nat lo) b).
@@ -158,7 +165,7 @@ Definition send_message (m : wmsg) : bytes := frame nsqd_frameTypeMessage (encod
      first 4 = int32 frame type, rest = data. *)
 Inductive rstate :=
 | RHdr (acc : bytes)                  (* fewer than 4 size bytes so far *)
-| RBody (need : nat) (acc : bytes)    (* need >= 1 more payload bytes *)
+| RBody (need : Z) (acc : bytes)      (* need >= 1 more payload bytes *)
 | RBad.
 
 Definition rinit : rstate := RHdr [].
@@ -176,15 +183,11 @@ Definition rstep (st : rstate) (b : N) : rstate * list (Z * bytes) :=
         let size := i32_of_u32 (be_dec acc') in
         if size <? 0 then (RBad, [])
         else if size =? 0 then finish_payload []
-        else (RBody (Z.to_nat size) [], [])
+        else (RBody size [], [])
       else (RHdr acc', [])
   | RBody need acc =>
       let acc' := acc ++ [b] in
-      match need with
-      | O => (RBad, [])
-      | S O => finish_payload acc'
-      | S n => (RBody n acc', [])
-      end
+      if need <=? 1 then finish_payload acc' else (RBody (need - 1) acc', [])
   end.
 
 Fixpoint rrun (st : rstate) (s : bytes) : rstate * list (Z * bytes) :=
@@ -307,7 +310,7 @@ Definition http_pub (max_msg : Z) (cl : Z) (body : bytes) : hres :=
   if cl >? max_msg then HErr H_MSG_TOO_BIG
   else
     let read_max := max_msg + 1 in
-    let data := firstn (Z.to_nat read_max) body in
+    let data := take read_max body in
     if len data =? read_max then HErr H_MSG_TOO_BIG
     else if len data =? 0 then HErr H_MSG_EMPTY
     else HOk [data].
@@ -340,7 +343,7 @@ Definition http_mpub_text (max_msg max_body : Z) (cl : Z) (body : bytes) : hres 
   if cl >? max_body then HErr H_BODY_TOO_BIG
   else
     let read_max := max_body + 1 in
-    let data := firstn (Z.to_nat read_max) body in
+    let data := take read_max body in
     text_loop (S (length data)) max_msg read_max 0 data.
 
 (* doMPUB, binary mode: readMPUB straight on the request body; any error is 413 with
